@@ -22,10 +22,13 @@ from slimta.relay.http import HttpRelay
 ID = 'C14'
 LEVEL = 'fault_enumeration'
 RULE = ('fault enumeration in real time with small timeouts (command 0.05 s, data 0.1 s, connect 0.05 s, pipe/HTTP 0.1 s). server: a peer '
-        'that stalls before any byte, after each command of a session, in the middle of a line, inside DATA, or trickles one byte per 0.02 s '
-        'forever (in a line / in DATA). relay client (SMTP and LMTP, PIPELINING on/off, 1..2 recipients): peer stalls at connect, banner, '
-        'EHLO/LHLO, STARTTLS, second EHLO, AUTH, MAIL, RCPT, DATA, after end-of-data, RSET, QUIT, or trickles a reply forever. pipe: child '
-        'sleeps; HTTP: peer never answers / trickles. One case = one stall point x configuration; all cases of a shard run concurrently. '
+        'that stalls before any byte, after each command of a session, in the middle of a line, inside DATA, inside an AUTH LOGIN/PLAIN '
+        'exchange (after each 334), inside the TLS handshake (STARTTLS or tls_immediately; silent or partial ClientHello), or trickles one '
+        'byte per 0.02 s forever (in a line / in DATA / in an AUTH response). relay client (SMTP and LMTP, PIPELINING on/off, 1..2 '
+        'recipients): peer stalls at connect, banner, EHLO/LHLO, STARTTLS, TLS handshake (after 220 / tls_immediately), second EHLO, AUTH, '
+        'MAIL, RCPT, DATA, after end-of-data, RSET after a rejected transaction (MAIL / RCPT / end-of-data rejected, LMTP mixed), QUIT, or '
+        'trickles a reply forever; unfinished reply while idle. pipe: child sleeps; HTTP: peer never answers / trickles / leaves the '
+        'previous keep-alive response body unfinished. One case = one stall point x configuration; all cases of a shard run concurrently. '
         'non-trivial = stall after >=1 completed exchange; distinct = distinct case')
 ASSUMPTIONS = ['wall clock; only "still blocked at the watchdog" (max(2 s, 20 x timeout), re-checked alone with 5 s) is judged: finishing late '
                'but before the watchdog passes, so machine load cannot create an alarm',
